@@ -8,8 +8,10 @@ fail=0
 for d in seeded/*/; do n=$(basename $d); P=${n%%-*}
   [[ "$n" =~ $RX ]] || continue
   if [ "$ONLY" != "  " ] && [[ "$ONLY" != *" $P "* ]]; then continue; fi
-  r=$(/venv/bin/python tools/seedtest.py $P $d/patch.diff $d/demo.py --tier $TIER --seed ${SEED:-0} | python3 -c "
-import json,sys; r=json.load(sys.stdin); v=r['checks']['$P']; print(r.get('confirmed'), v['verdict'], (v['lines'][0] if v['lines'] else '')[:150])")
+  Q=$(python3 -c "
+import json; e=json.load(open('seeded/EXPECTED.json')); print(e.get('caught_by_other_check',{}).get('$n',{}).get('check','$P'))")
+  r=$(/venv/bin/python tools/seedtest.py $P $d/patch.diff $d/demo.py --tier $TIER --seed ${SEED:-0} $([ "$Q" != "$P" ] && echo --also $Q) | python3 -c "
+import json,sys; r=json.load(sys.stdin); v=r['checks']['$Q']; print(r.get('confirmed'), v['verdict'], (v['lines'][0] if v['lines'] else '')[:150])")
   exp=$(python3 -c "
 import json; e=json.load(open('seeded/EXPECTED.json')); n='$n'
 print('thorough-only' if (n in e['thorough_only'] and '$TIER'=='quick') else 'out-of-reach' if n in e['out_of_reach'] else '')")
